@@ -1,7 +1,8 @@
 (* C09 — Polyline is an immutable value whose edits match a plain list-of-points model.
    Only statements; each closed by `exact <lemma>` from proofs/P_polyline_ops.v / P_polyline_insert.v.
    code side  (c_*, edges_for, code_impl): code-shaped model of polliwog/polyline/_polyline_object.py and _edges.py
-              (with_insertions as fixed by commit "fix: with_insertions index maps", fixes/C09-insertion-index-maps.diff);
+              (with_insertions as repaired by /repo commit 9e3d823 = fixes/C09-insertion-index-maps.diff; the constructor
+              stores a float64 copy = commit 9b9f8e2 (fixes/C09-integer-vertices.diff), so integer arrays hold the same points as reals);
    spec side  (s_*, spec_*, spec_impl): the same operations on an ordered list of points.
    Immutability / aliasing (write flags, shared memory, receiver unchanged in memory) is not a Gallina notion:
    it is asserted by the correspondence harness on every call (validated, not proved); what IS proved here is
